@@ -291,6 +291,14 @@ def run_C02(ctx):
     texts = [gen_text.rand_valid_text(rng) for _ in range(n)]
     correspondence(ctx, [streams.sess_texts(texts, ('string',), tag='valid')], proj_read, None, 'C02 grammar conformance', 'random-valid')
 
+def run_C08(ctx):
+    rng = Rng(ctx['seed'] * 104729 + 8)
+    n = 1500 if ctx['tier'] == 'quick' else 40000
+    lits = gen_text.numeric_literals(rng, n)
+    for i in range(0, len(lits), 5000):
+        e = {}
+        correspondence(ctx, [streams.sess_c08(lits[i:i + 5000], e)], proj_read, streams.oracle_c08(e), 'C08 numeric literal exactness', 'literals')
+
 COMMON_ASSUMPTIONS = [
     'NULL config_t*/config_setting_t*, dangling handles and non-NUL-terminated strings are out of contract',
     'ctype classification is that of the C/UTF-8 locales',
@@ -298,6 +306,7 @@ COMMON_ASSUMPTIONS = [
 ]
 
 REGISTRY = {
+    'C08': dict(modules=['LibconfigModel.Properties.C08'], run=run_C08, assumptions=COMMON_ASSUMPTIONS),
     'C02': dict(modules=['LibconfigModel.Properties.C02'], run=run_C02, assumptions=COMMON_ASSUMPTIONS),
     'C04': dict(modules=['LibconfigModel.Properties.C04'], run=run_C04, assumptions=COMMON_ASSUMPTIONS),
     'C05': dict(modules=['LibconfigModel.Properties.C05'], run=run_C05, assumptions=COMMON_ASSUMPTIONS),
